@@ -2127,8 +2127,19 @@ class FileSet:
         """
         if max_interval is not None:
             max_interval = to_timedelta(max_interval, numbers_as="seconds")
-            start = to_datetime(start) - max_interval
-            end = to_datetime(end) + max_interval
+            start = datetime.min if start is None else to_datetime(start)
+            end = datetime.max if end is None else to_datetime(end)
+
+            # Expand the time period but stay in the range of valid dates
+            # (the defaults are datetime.min and datetime.max):
+            if start - datetime.min > max_interval:
+                start -= max_interval
+            else:
+                start = datetime.min
+            if datetime.max - end > max_interval:
+                end += max_interval
+            else:
+                end = datetime.max
 
         files1 = list(
             self.find(start, end, filters=filters)
